@@ -126,8 +126,8 @@ func (s *c18State) apply(o c18Op, t *mc.Tr) (ret float64, flag bool) {
 		s.m.Reset()
 		s.n, s.sum, s.pureAdds = 0, 0, true
 		s.afterReset = true
-		if g := s.m.Get(); g != 0 {
-			t.Fail(name+"/reset-value", "Get() after Reset() is %v", g)
+		if g, fresh := s.m.Get(), s.k.mk().Get(); g != fresh {
+			t.Fail(name+"/reset-value", "Get() after Reset() is %v, a new instance reports %v", g, fresh)
 		}
 		return 0, false
 	case "upd":
